@@ -26,6 +26,8 @@ CONSTANTS Callers,        \* {1}: one thread; {1, 2}: two threads sharing one cl
           ReuseCfg,       \* Config::reuseConnections
           AllowIdle,      \* a caller may sleep longer than connectionIdleTimeout before a request
           EmitCases,      \* TRUE: print every terminal case (generator role)
+          ConnHdr,        \* spellings of the Connection field of a success response (kind ok_conn): variant name ->
+                          \* [ver |-> "1.0" | "1.1", toks |-> the list elements as sent (sequence of strings)]
           Dev_RetryNonIdempotent,   \* retry loop ignores the method class
           Dev_RetryFraming,         \* framing errors fall into the generic retry branch
           Dev_KeepAfterCloseSignal, \* responseRequestsClose ignored
@@ -39,6 +41,11 @@ CONSTANTS Callers,        \* {1}: one thread; {1, 2}: two threads sharing one cl
                                     \* bytes: surplus that arrives after the header block is never pulled in (no forceEvict)
           Dev_BackoffClampsAttempt, \* the attempt counter is clamped (min(attempt + 1, 4), "cap the back-off") although it is
                                     \* also compared with the budget: for budgets >= 5 the loop never gives up
+          LeaseTO,        \* Config::leaseAcquireTimeout > 0 (and shorter than requestTimeout): a wait for the lease times out
+          Stagger,        \* caller c > 1 starts once caller c - 1 has sent its request (or has finished): the driver's order
+          Dev_LeaseWaitRestarts,    \* the lease wait starts a fresh time-out at every wake-up of the shared condition variable
+          Dev_CloseLastOnly,        \* only the LAST element of the Connection list is compared with close / keep-alive
+          Dev_ZeroLengthFastPath,   \* a zero-length body completes the response before the surplus check
           Dev_IdleBytesKept         \* bytes that arrive on a cached connection stay buffered (connection left in Sync mode)
 
 Idem(m) == m \in {"GET", "HEAD", "PUT", "DELETE", "OPTIONS", "TRACE"}
@@ -69,8 +76,9 @@ Stale == [k |-> "stale", v |-> "-", p |-> "-"]
 VARIABLES pc, ri, meth, pre, bud, att, cur, fresh, stp, err, idle,  \* per caller
           unread, foreign,      \* connections holding bytes nobody consumed; ghost: such bytes were read as a response
           lease, cache, conns,                                 \* shared: the client's lease / cache, the connections
-          atts, fk, steps, script                              \* history: attempts of the current request, the case
-vars == <<pc, ri, meth, pre, bud, unread, foreign, att, cur, fresh, stp, err, idle, lease, cache, conns, atts, fk, steps, script>>
+          atts, fk, steps, script,                             \* history: attempts of the current request, the case
+          age, waited, total    \* time (only with LeaseTO): ticks of the current stall; of each lease wait (see Tick)
+vars == <<age, waited, total, pc, ri, meth, pre, bud, unread, foreign, att, cur, fresh, stp, err, idle, lease, cache, conns, atts, fk, steps, script>>
 
 None == [k |-> "-", v |-> "-", p |-> "-"]
 Init == /\ pc = [c \in Callers |-> "idle"] /\ ri = [c \in Callers |-> 1]
@@ -80,6 +88,7 @@ Init == /\ pc = [c \in Callers |-> "idle"] /\ ri = [c \in Callers |-> 1]
         /\ lease = 0 /\ cache = 0 /\ conns = <<>>
         /\ atts = [c \in Callers |-> <<>>] /\ fk = [c \in Callers |-> {}] /\ steps = [c \in Callers |-> <<>>]
         /\ script = [c \in Callers |-> <<>>]
+        /\ age = 0 /\ waited = [c \in Callers |-> 0] /\ total = [c \in Callers |-> 0]
 
 \* ------------------------------------------------------------------------------------------------ helpers
 StepOK(c, s) == /\ Applicable(meth[c], s)
@@ -100,154 +109,220 @@ KeepOnFailure(n) == IF Dev_KeepAfterFailure THEN cache ELSE Dropped(n)
 SetConn(n, open, taint) == conns' = [conns EXCEPT ![n] = [open |-> open, taint |-> @.taint \cup taint]]
 
 \* ------------------------------------------------------------------------------------------------ the caller
-Start(c) == /\ pc[c] = "idle" /\ ri[c] <= NReq
-            /\ \E m \in (IF ri[c] = 1 THEN MethodSet ELSE LaterMethods), b \in BudgetSet, sl \in (IF AllowIdle /\ ri[c] > 1 THEN {FALSE, TRUE} ELSE {FALSE}) :
-                 /\ meth' = [meth EXCEPT ![c] = m] /\ bud' = [bud EXCEPT ![c] = b] /\ idle' = [idle EXCEPT ![c] = sl]
-                 /\ pre' = [pre EXCEPT ![c] = IF sl THEN 1 ELSE 0]
-            /\ att' = [att EXCEPT ![c] = 0] /\ atts' = [atts EXCEPT ![c] = <<>>] /\ fk' = [fk EXCEPT ![c] = {}]
-            /\ steps' = [steps EXCEPT ![c] = <<>>] /\ err' = [err EXCEPT ![c] = "none"]
-            /\ pc' = [pc EXCEPT ![c] = "lease"]
-            /\ UNCHANGED <<ri, cur, fresh, stp, lease, cache, conns, script, unread, foreign>>
+Start_(c) == /\ pc[c] = "idle" /\ ri[c] <= NReq
+             /\ \E m \in (IF ri[c] = 1 THEN MethodSet ELSE LaterMethods), b \in BudgetSet, sl \in (IF AllowIdle /\ ri[c] > 1 THEN {FALSE, TRUE} ELSE {FALSE}) :
+                  /\ meth' = [meth EXCEPT ![c] = m] /\ bud' = [bud EXCEPT ![c] = b] /\ idle' = [idle EXCEPT ![c] = sl]
+                  /\ pre' = [pre EXCEPT ![c] = IF sl THEN 1 ELSE 0]
+             /\ att' = [att EXCEPT ![c] = 0] /\ atts' = [atts EXCEPT ![c] = <<>>] /\ fk' = [fk EXCEPT ![c] = {}]
+             /\ steps' = [steps EXCEPT ![c] = <<>>] /\ err' = [err EXCEPT ![c] = "none"]
+             /\ pc' = [pc EXCEPT ![c] = "lease"]
+             /\ UNCHANGED <<ri, cur, fresh, stp, lease, cache, conns, script, unread, foreign>>
 
-AcquireLease(c) == /\ pc[c] = "lease" /\ lease = 0
-                   /\ lease' = c /\ pc' = [pc EXCEPT ![c] = "cache"]
-                   /\ UNCHANGED <<ri, meth, pre, bud, unread, foreign, att, cur, fresh, stp, err, idle, cache, conns, atts, fk, steps, script>>
+AcquireLease_(c) == /\ pc[c] = "lease" /\ lease = 0
+                    /\ lease' = c /\ pc' = [pc EXCEPT ![c] = "cache"]
+                    /\ UNCHANGED <<ri, meth, pre, bud, unread, foreign, att, cur, fresh, stp, err, idle, cache, conns, atts, fk, steps, script>>
 
 \* acquireConnection (1): reuse a cached, non-idle connection
-Reuse(c) == /\ pc[c] = "cache" /\ cache # 0 /\ ~idle[c]
-            /\ cur' = [cur EXCEPT ![c] = cache] /\ fresh' = [fresh EXCEPT ![c] = FALSE]
-            /\ pc' = [pc EXCEPT ![c] = "sync"]
-            /\ UNCHANGED <<ri, meth, pre, bud, unread, foreign, att, stp, err, idle, lease, cache, conns, atts, fk, steps, script>>
-EvictIdle(c) == /\ pc[c] = "cache" /\ cache # 0 /\ idle[c]
-                /\ SetConn(cache, FALSE, {}) /\ cache' = 0 /\ idle' = [idle EXCEPT ![c] = FALSE]
-                /\ pc' = [pc EXCEPT ![c] = "connect"]
-                /\ UNCHANGED <<ri, meth, pre, bud, unread, foreign, att, cur, fresh, stp, err, lease, atts, fk, steps, script>>
-Miss(c) == /\ pc[c] = "cache" /\ cache = 0
-           /\ idle' = [idle EXCEPT ![c] = FALSE] /\ pc' = [pc EXCEPT ![c] = "connect"]
-           /\ UNCHANGED <<ri, meth, pre, bud, unread, foreign, att, cur, fresh, stp, err, lease, cache, conns, atts, fk, steps, script>>
+Reuse_(c) == /\ pc[c] = "cache" /\ cache # 0 /\ ~idle[c]
+             /\ cur' = [cur EXCEPT ![c] = cache] /\ fresh' = [fresh EXCEPT ![c] = FALSE]
+             /\ pc' = [pc EXCEPT ![c] = "sync"]
+             /\ UNCHANGED <<ri, meth, pre, bud, unread, foreign, att, stp, err, idle, lease, cache, conns, atts, fk, steps, script>>
+EvictIdle_(c) == /\ pc[c] = "cache" /\ cache # 0 /\ idle[c]
+                 /\ SetConn(cache, FALSE, {}) /\ cache' = 0 /\ idle' = [idle EXCEPT ![c] = FALSE]
+                 /\ pc' = [pc EXCEPT ![c] = "connect"]
+                 /\ UNCHANGED <<ri, meth, pre, bud, unread, foreign, att, cur, fresh, stp, err, lease, atts, fk, steps, script>>
+Miss_(c) == /\ pc[c] = "cache" /\ cache = 0
+            /\ idle' = [idle EXCEPT ![c] = FALSE] /\ pc' = [pc EXCEPT ![c] = "connect"]
+            /\ UNCHANGED <<ri, meth, pre, bud, unread, foreign, att, cur, fresh, stp, err, lease, cache, conns, atts, fk, steps, script>>
 
 NewConn == Len(conns) + 1
 \* acquireConnection (3): connectSync fails (refused / timed out): pre-send region -> HttpRequestNotSentError
 \* (the peer's step is chosen inside the action, behind the pc guard: TLC then has one action instance per caller, not
 \* one per element of StepSet - the byte-offset sweep uses alphabets of ~1000 steps)
-ConnectFails(c) == /\ pc[c] = "connect" /\ \E s \in StepSet :
-                      /\ StepOK(c, s) /\ Class(s) = "connfail"
-                      /\ conns' = Append(conns, [open |-> FALSE, taint |-> {"failure"}])
-                      /\ Note(c, s) /\ Attempt(c, NewConn, TRUE, TRUE, FALSE, "NotSent", TRUE, {})
-                      /\ err' = [err EXCEPT ![c] = "NotSent"] /\ pc' = [pc EXCEPT ![c] = "decide"] /\ lease' = 0
-                      /\ UNCHANGED <<ri, meth, pre, bud, unread, foreign, att, cur, fresh, stp, idle, cache, script>>
+ConnectFails_(c) == /\ pc[c] = "connect" /\ \E s \in StepSet :
+                       /\ StepOK(c, s) /\ Class(s) = "connfail"
+                       /\ conns' = Append(conns, [open |-> FALSE, taint |-> {"failure"}])
+                       /\ Note(c, s) /\ Attempt(c, NewConn, TRUE, TRUE, FALSE, "NotSent", TRUE, {})
+                       /\ err' = [err EXCEPT ![c] = "NotSent"] /\ pc' = [pc EXCEPT ![c] = "decide"] /\ lease' = 0
+                       /\ UNCHANGED <<ri, meth, pre, bud, unread, foreign, att, cur, fresh, stp, idle, cache, script>>
 \* the peer closes / resets the connection right at accept and the engine notices it (HUP / SO_ERROR) while completing the
 \* connect: connectSync fails, also NotSent (observed on the real client for both; which branch is taken is a race)
-ConnectResetEarly(c) == /\ pc[c] = "connect" /\ \E s \in StepSet :
-                           /\ StepOK(c, s) /\ Class(s) = "accfail"
-                           /\ conns' = Append(conns, [open |-> FALSE, taint |-> {"failure"}])
-                           /\ Note(c, s) /\ Attempt(c, NewConn, TRUE, TRUE, FALSE, "NotSent", TRUE, {})
-                           /\ err' = [err EXCEPT ![c] = "NotSent"] /\ pc' = [pc EXCEPT ![c] = "decide"] /\ lease' = 0
-                           /\ UNCHANGED <<ri, meth, pre, bud, unread, foreign, att, cur, fresh, stp, idle, cache, script>>
+ConnectResetEarly_(c) == /\ pc[c] = "connect" /\ \E s \in StepSet :
+                            /\ StepOK(c, s) /\ Class(s) = "accfail"
+                            /\ conns' = Append(conns, [open |-> FALSE, taint |-> {"failure"}])
+                            /\ Note(c, s) /\ Attempt(c, NewConn, TRUE, TRUE, FALSE, "NotSent", TRUE, {})
+                            /\ err' = [err EXCEPT ![c] = "NotSent"] /\ pc' = [pc EXCEPT ![c] = "decide"] /\ lease' = 0
+                            /\ UNCHANGED <<ri, meth, pre, bud, unread, foreign, att, cur, fresh, stp, idle, cache, script>>
 \* acquireConnection (3)+(4): connected and published in the cache
-ConnectOk(c) == /\ pc[c] = "connect" /\ \E s \in StepSet :
-                   /\ StepOK(c, s) /\ Class(s) # "connfail"
-                   /\ conns' = Append(conns, [open |-> TRUE, taint |-> {}])
-                   /\ cache' = NewConn /\ cur' = [cur EXCEPT ![c] = NewConn] /\ fresh' = [fresh EXCEPT ![c] = TRUE]
-                   /\ stp' = [stp EXCEPT ![c] = s] /\ Note(c, s)
-                   /\ pc' = [pc EXCEPT ![c] = "sync"]
-                   /\ UNCHANGED <<ri, meth, pre, bud, unread, foreign, att, err, idle, lease, atts, script>>
+ConnectOk_(c) == /\ pc[c] = "connect" /\ \E s \in StepSet :
+                    /\ StepOK(c, s) /\ Class(s) # "connfail"
+                    /\ conns' = Append(conns, [open |-> TRUE, taint |-> {}])
+                    /\ cache' = NewConn /\ cur' = [cur EXCEPT ![c] = NewConn] /\ fresh' = [fresh EXCEPT ![c] = TRUE]
+                    /\ stp' = [stp EXCEPT ![c] = s] /\ Note(c, s)
+                    /\ pc' = [pc EXCEPT ![c] = "sync"]
+                    /\ UNCHANGED <<ri, meth, pre, bud, unread, foreign, att, err, idle, lease, atts, script>>
 
 \* setReadMode(Sync): succeeds for every session id (even one the engine has already closed)
-SetSyncMode(c) == /\ pc[c] = "sync" /\ pc' = [pc EXCEPT ![c] = "send"]
-                  /\ UNCHANGED <<ri, meth, pre, bud, unread, foreign, att, cur, fresh, stp, err, idle, lease, cache, conns, atts, fk, steps, script>>
+SetSyncMode_(c) == /\ pc[c] = "sync" /\ pc' = [pc EXCEPT ![c] = "send"]
+                   /\ UNCHANGED <<ri, meth, pre, bud, unread, foreign, att, cur, fresh, stp, err, idle, lease, cache, conns, atts, fk, steps, script>>
 
 \* sendSync on a cached connection the peer has closed in the meantime: nothing reaches the peer; the failure shows
 \* up in the receive loop and is NOT provably unsent
-SendStale(c) == /\ pc[c] = "send" /\ ~fresh[c] /\ ~conns[cur[c]].open
-                /\ Note(c, Stale) /\ Attempt(c, cur[c], FALSE, FALSE, FALSE, "Other", FALSE, conns[cur[c]].taint)
-                /\ SetConn(cur[c], FALSE, {"failure"}) /\ cache' = KeepOnFailure(cur[c])
-                /\ Fail(c, "Other")
-                /\ UNCHANGED <<ri, meth, pre, bud, unread, foreign, att, cur, fresh, stp, idle, script>>
+SendStale_(c) == /\ pc[c] = "send" /\ ~fresh[c] /\ ~conns[cur[c]].open
+                 /\ Note(c, Stale) /\ Attempt(c, cur[c], FALSE, FALSE, FALSE, "Other", FALSE, conns[cur[c]].taint)
+                 /\ SetConn(cur[c], FALSE, {"failure"}) /\ cache' = KeepOnFailure(cur[c])
+                 /\ Fail(c, "Other")
+                 /\ UNCHANGED <<ri, meth, pre, bud, unread, foreign, att, cur, fresh, stp, idle, script>>
 \* a request arriving on a kept-alive connection: the peer picks its step now
-PickCached(c) == /\ pc[c] = "send" /\ ~fresh[c] /\ conns[cur[c]].open /\ stp[c] = None /\ \E s \in StepSet :
-                    /\ StepOK(c, s) /\ ~FreshOnly(s)
-                    /\ stp' = [stp EXCEPT ![c] = s] /\ Note(c, s)
-                    /\ UNCHANGED <<pc, ri, meth, pre, bud, unread, foreign, att, cur, fresh, err, idle, lease, cache, conns, atts, script>>
+PickCached_(c) == /\ pc[c] = "send" /\ ~fresh[c] /\ conns[cur[c]].open /\ stp[c] = None /\ \E s \in StepSet :
+                     /\ StepOK(c, s) /\ ~FreshOnly(s)
+                     /\ stp' = [stp EXCEPT ![c] = s] /\ Note(c, s)
+                     /\ UNCHANGED <<pc, ri, meth, pre, bud, unread, foreign, att, cur, fresh, err, idle, lease, cache, conns, atts, script>>
 \* the request is handed to the engine; what the peer's step lets through
-Send(c) == /\ pc[c] = "send" /\ stp[c] # None
-           /\ LET s == stp[c]  n == cur[c]  t == conns[n].taint IN
-              CASE Class(s) = "accfail"  -> /\ Attempt(c, n, fresh[c], TRUE, FALSE, "Other", FALSE, t)
-                                            /\ SetConn(n, FALSE, {"failure"}) /\ cache' = KeepOnFailure(n) /\ Fail(c, "Other")
-                                            /\ stp' = [stp EXCEPT ![c] = None] /\ UNCHANGED <<steps, fk>>
-                [] Class(s) = "sendfail" -> /\ Attempt(c, n, fresh[c], TRUE, s.p \notin {"zero", "#0"}, "Other", FALSE, t)
-                                            /\ SetConn(n, FALSE, {"failure"}) /\ cache' = KeepOnFailure(n) /\ Fail(c, "Other")
-                                            /\ stp' = [stp EXCEPT ![c] = None] /\ UNCHANGED <<steps, fk>>
-                [] Class(s) = "reqcut"   -> /\ Attempt(c, n, fresh[c], TRUE, TRUE, "Other", FALSE, t)
-                                            /\ SetConn(n, FALSE, {"failure"}) /\ cache' = KeepOnFailure(n) /\ Fail(c, "Other")
-                                            /\ stp' = [stp EXCEPT ![c] = None] /\ UNCHANGED <<steps, fk>>
-                [] OTHER                 -> /\ pc' = [pc EXCEPT ![c] = "recv"]
-                                            /\ UNCHANGED <<err, lease, cache, conns, atts, stp, steps, fk>>
-           \* bytes left over on the connection would be read as (the beginning of) this request's response
-           /\ foreign' = (foreign \/ (Class(stp[c]) \notin {"accfail", "sendfail", "reqcut"} /\ cur[c] \in unread))
-           /\ unread' = unread \ {cur[c]}
-           /\ UNCHANGED <<ri, meth, pre, bud, att, cur, fresh, idle, script>>
+Send_(c) == /\ pc[c] = "send" /\ stp[c] # None
+            /\ LET s == stp[c]  n == cur[c]  t == conns[n].taint IN
+               CASE Class(s) = "accfail"  -> /\ Attempt(c, n, fresh[c], TRUE, FALSE, "Other", FALSE, t)
+                                             /\ SetConn(n, FALSE, {"failure"}) /\ cache' = KeepOnFailure(n) /\ Fail(c, "Other")
+                                             /\ stp' = [stp EXCEPT ![c] = None] /\ UNCHANGED <<steps, fk>>
+                 [] Class(s) = "sendfail" -> /\ Attempt(c, n, fresh[c], TRUE, s.p \notin {"zero", "#0"}, "Other", FALSE, t)
+                                             /\ SetConn(n, FALSE, {"failure"}) /\ cache' = KeepOnFailure(n) /\ Fail(c, "Other")
+                                             /\ stp' = [stp EXCEPT ![c] = None] /\ UNCHANGED <<steps, fk>>
+                 [] Class(s) = "reqcut"   -> /\ Attempt(c, n, fresh[c], TRUE, TRUE, "Other", FALSE, t)
+                                             /\ SetConn(n, FALSE, {"failure"}) /\ cache' = KeepOnFailure(n) /\ Fail(c, "Other")
+                                             /\ stp' = [stp EXCEPT ![c] = None] /\ UNCHANGED <<steps, fk>>
+                 [] OTHER                 -> /\ pc' = [pc EXCEPT ![c] = "recv"]
+                                             /\ UNCHANGED <<err, lease, cache, conns, atts, stp, steps, fk>>
+            \* bytes left over on the connection would be read as (the beginning of) this request's response
+            /\ foreign' = (foreign \/ (Class(stp[c]) \notin {"accfail", "sendfail", "reqcut"} /\ cur[c] \in unread))
+            /\ unread' = unread \ {cur[c]}
+            /\ UNCHANGED <<ri, meth, pre, bud, att, cur, fresh, idle, script>>
 
 \* receive loop: the response is cut, the peer stalls (receiveSync times out), the response is malformed, or complete
-RecvFails(c) == /\ pc[c] = "recv" /\ Class(stp[c]) \in {"noresp", "respcut", "stall", "malformed"}
-                /\ (Class(stp[c]) = "stall") => ~Dev_NoRecvTimeout
-                /\ LET s == stp[c]  n == cur[c]  cl == Class(s)
-                       e == IF cl = "malformed" THEN "Framing" ELSE "Other"
-                       open == cl \in {"stall", "malformed"}   \* the peer keeps these connections open
-                   IN /\ Attempt(c, n, fresh[c], TRUE, TRUE, e, FALSE, conns[n].taint)
-                      /\ SetConn(n, open, {"failure"}) /\ cache' = KeepOnFailure(n)
-                      /\ IF e = "Framing" THEN /\ err' = [err EXCEPT ![c] = e] /\ pc' = [pc EXCEPT ![c] = "decide"] /\ lease' = 0
-                                          ELSE Fail(c, e)
-                /\ stp' = [stp EXCEPT ![c] = None]
-                /\ UNCHANGED <<ri, meth, pre, bud, unread, foreign, att, cur, fresh, idle, fk, steps, script>>
+RecvFails_(c) == /\ pc[c] = "recv" /\ Class(stp[c]) \in {"noresp", "respcut", "stall", "malformed"}
+                 /\ (Class(stp[c]) = "stall") => ~Dev_NoRecvTimeout
+                 /\ LET s == stp[c]  n == cur[c]  cl == Class(s)
+                        e == IF cl = "malformed" THEN "Framing" ELSE "Other"
+                        open == cl \in {"stall", "malformed"}   \* the peer keeps these connections open
+                    IN /\ Attempt(c, n, fresh[c], TRUE, TRUE, e, FALSE, conns[n].taint)
+                       /\ SetConn(n, open, {"failure"}) /\ cache' = KeepOnFailure(n)
+                       /\ IF e = "Framing" THEN /\ err' = [err EXCEPT ![c] = e] /\ pc' = [pc EXCEPT ![c] = "decide"] /\ lease' = 0
+                                           ELSE Fail(c, e)
+                 /\ stp' = [stp EXCEPT ![c] = None]
+                 /\ UNCHANGED <<ri, meth, pre, bud, unread, foreign, att, cur, fresh, idle, fk, steps, script>>
+\* The close signal of a response (RFC 9110 7.6.1, RFC 9112 9.3/9.6): Connection is a comma-separated list of
+\* case-insensitive tokens (connection options next to the names of hop-by-hop fields), given in one field line or in
+\* several; the response announces the close iff SOME element is "close" - wherever it stands in the list, whatever
+\* its case and the white space around it - or, for HTTP/1.0, iff no element is "keep-alive".
+LowerTok(t) == CASE t \in {"close", "Close", "CLOSE", "cLoSe"}             -> "close"
+                 [] t \in {"keep-alive", "Keep-Alive", "KEEP-ALIVE"}        -> "keep-alive"
+                 [] OTHER                                                   -> t
+SignalsClose(h) == LET f == {LowerTok(h.toks[i]) : i \in DOMAIN h.toks}
+                   IN "close" \in f \/ (h.ver = "1.0" /\ "keep-alive" \notin f)
 SuccessTaint(s) == CASE s.k \in {"ok_connclose", "ok_http10"} -> {"close_signal"}
+                     [] s.k = "ok_conn"                       -> IF SignalsClose(ConnHdr[s.v]) THEN {"close_signal"} ELSE {}
                      [] s.k = "ok_surplus"                    -> {"surplus"}
                      [] s.k = "ok_closedelim"                 -> {"close_delim"}
                      [] OTHER                                 -> {}
+Seen(h) == IF Dev_CloseLastOnly /\ Len(h.toks) > 1 THEN [ver |-> h.ver, toks |-> <<h.toks[Len(h.toks)]>>] ELSE h
+ZeroLength(s) == s.v \in {"cl0", "chunked0"}
 Kept(s) == /\ ReuseCfg
            /\ \/ SuccessTaint(s) = {}
+              \/ s.k = "ok_conn" /\ ~SignalsClose(Seen(ConnHdr[s.v]))
+              \/ Dev_ZeroLengthFastPath /\ s.k = "ok_surplus" /\ ZeroLength(s)
               \/ Dev_KeepAfterCloseSignal /\ SuccessTaint(s) = {"close_signal"}
               \/ Dev_KeepAfterSurplus /\ SuccessTaint(s) = {"surplus"}
               \/ Dev_ClampedBodyRead /\ s.k = "ok_surplus" /\ s.v = "cl" /\ s.p \in {"h_bs", "hb_bs_s"}
-RecvOk(c) == /\ pc[c] = "recv" /\ Class(stp[c]) = "success"
-             /\ LET s == stp[c]  n == cur[c]
-                    open == s.k \notin {"ok_then_fin", "ok_closedelim"}   \* peer closed / half-closed afterwards
-                IN /\ Attempt(c, n, fresh[c], TRUE, TRUE, "none", FALSE, conns[n].taint)
-                   /\ SetConn(n, open, SuccessTaint(s))
-                   \* ok_latesurplus: the surplus comes in a segment of its own after the complete response; whether the
-                   \* client still sees it before it completes the exchange is a race (weaker reading: no taint)
-                   /\ IF s.k = "ok_latesurplus" /\ ReuseCfg THEN cache' \in {cache, Dropped(n)}
-                      ELSE cache' = IF Kept(s) THEN cache ELSE Dropped(n)
-                   \* ok_idle: bytes arrive while the connection sits in the cache; nobody reads them: they are discarded
-                   /\ unread' = IF s.k = "ok_idle" /\ s.v = "stale" /\ Dev_IdleBytesKept /\ Kept(s) THEN unread \cup {n} ELSE unread
-             /\ err' = [err EXCEPT ![c] = "none"] /\ pc' = [pc EXCEPT ![c] = "finish"] /\ lease' = 0
-             /\ stp' = [stp EXCEPT ![c] = None]
-             /\ UNCHANGED <<ri, meth, pre, bud, foreign, att, cur, fresh, idle, fk, steps, script>>
+RecvOk_(c) == /\ pc[c] = "recv" /\ Class(stp[c]) = "success"
+              /\ LET s == stp[c]  n == cur[c]
+                     open == s.k \notin {"ok_then_fin", "ok_closedelim"}   \* peer closed / half-closed afterwards
+                 IN /\ Attempt(c, n, fresh[c], TRUE, TRUE, "none", FALSE, conns[n].taint)
+                    /\ SetConn(n, open, SuccessTaint(s))
+                    \* ok_latesurplus: the surplus comes in a segment of its own after the complete response; whether the
+                    \* client still sees it before it completes the exchange is a race (weaker reading: no taint)
+                    /\ IF s.k = "ok_latesurplus" /\ ReuseCfg THEN cache' \in {cache, Dropped(n)}
+                       ELSE cache' = IF Kept(s) THEN cache ELSE Dropped(n)
+                    \* ok_idle: bytes arrive while the connection sits in the cache; nobody reads them: they are discarded
+                    /\ unread' = IF s.k = "ok_idle" /\ s.v = "stale" /\ Dev_IdleBytesKept /\ Kept(s) THEN unread \cup {n} ELSE unread
+              /\ err' = [err EXCEPT ![c] = "none"] /\ pc' = [pc EXCEPT ![c] = "finish"] /\ lease' = 0
+              /\ stp' = [stp EXCEPT ![c] = None]
+              /\ UNCHANGED <<ri, meth, pre, bud, foreign, att, cur, fresh, idle, fk, steps, script>>
 
 \* performRequest's catch blocks
 GiveUp(c) == LET e == err[c] IN
              \/ (e = "Framing" /\ ~Dev_RetryFraming)
              \/ ~(RetryClass(meth[c]) \/ e = "NotSent" \/ Dev_RetryNonIdempotent)
              \/ (IF Dev_BudgetOffByOne THEN att[c] > bud[c] ELSE att[c] >= bud[c])
-RetryDecision(c) == /\ pc[c] = "decide"
-                    /\ IF GiveUp(c) THEN pc' = [pc EXCEPT ![c] = "finish"] /\ UNCHANGED att
-                       ELSE /\ pc' = [pc EXCEPT ![c] = "lease"]                                      \* Backoff
-                            /\ att' = [att EXCEPT ![c] = IF Dev_BackoffClampsAttempt /\ @ + 1 > 4 THEN 4 ELSE @ + 1]
-                    /\ UNCHANGED <<ri, meth, pre, bud, unread, foreign, cur, fresh, stp, err, idle, lease, cache, conns, atts, fk, steps, script>>
+RetryDecision_(c) == /\ pc[c] = "decide"
+                     /\ IF GiveUp(c) THEN pc' = [pc EXCEPT ![c] = "finish"] /\ UNCHANGED att
+                        ELSE /\ pc' = [pc EXCEPT ![c] = "lease"]                                      \* Backoff
+                             /\ att' = [att EXCEPT ![c] = IF Dev_BackoffClampsAttempt /\ @ + 1 > 4 THEN 4 ELSE @ + 1]
+                     /\ UNCHANGED <<ri, meth, pre, bud, unread, foreign, cur, fresh, stp, err, idle, lease, cache, conns, atts, fk, steps, script>>
 
 Result(c) == CASE err[c] = "none" -> "ok" [] err[c] = "Framing" -> "framing" [] err[c] = "NotSent" -> "notsent" [] OTHER -> "other"
-Finish(c) == /\ pc[c] = "finish"
-             /\ script' = [script EXCEPT ![c] = Append(@, [m |-> meth[c], b |-> bud[c],
-                              pre |-> pre[c],
-                              steps |-> steps[c], res |-> Result(c),
-                              conns |-> [i \in 1..Len(atts[c]) |-> IF atts[c][i].visible THEN atts[c][i].conn ELSE 0]])]
-             /\ ri' = [ri EXCEPT ![c] = @ + 1] /\ pc' = [pc EXCEPT ![c] = "idle"]
-             /\ UNCHANGED <<meth, pre, bud, unread, foreign, att, cur, fresh, stp, err, idle, lease, cache, conns, atts, fk, steps>>
+Finish_(c) == /\ pc[c] = "finish"
+              /\ script' = [script EXCEPT ![c] = Append(@, [m |-> meth[c], b |-> bud[c],
+                               pre |-> pre[c],
+                               steps |-> steps[c], res |-> Result(c),
+                               \* what the model decides about each step's response (the scripted server announces a
+                               \* taint exactly where the model sees one: the driver does not interpret header values)
+                               tn |-> [i \in 1..Len(steps[c]) |-> SuccessTaint(steps[c][i])],
+                               conns |-> [i \in 1..Len(atts[c]) |-> IF atts[c][i].visible THEN atts[c][i].conn ELSE 0]])]
+              /\ ri' = [ri EXCEPT ![c] = @ + 1] /\ pc' = [pc EXCEPT ![c] = "idle"]
+              /\ UNCHANGED <<meth, pre, bud, unread, foreign, att, cur, fresh, stp, err, idle, lease, cache, conns, atts, fk, steps>>
 
-Next == \E c \in Callers :
+\* ------------------------------------------------------------------------------------------------ the lease wait in time
+\* acquireLease waits on a condition variable shared by all hosts, with ONE deadline (leaseAcquireTimeout) for the whole
+\* wait.  Time is abstracted to what the property needs, in ticks of leaseAcquireTimeout: a stall of the peer lasts
+\* StallTicks (requestTimeout = StallTicks * leaseAcquireTimeout, then the receive time-out ends it), a waiter's deadline
+\* is reached after one tick, everything else takes no time.  Time cannot pass a deadline (urgency: Tick is disabled while
+\* a waiter has reached its deadline, or the stall its end).  waited = ticks since the wait's (current) deadline was set,
+\* total = ticks since the wait began; they differ only when a wake-up (another host's release: notify_all) starts a
+\* fresh time-out (Dev_LeaseWaitRestarts).
+StallTicks == 2
+LeaseTo == [k |-> "leaseto", v |-> "-", p |-> "-"]     \* marker in the case (like Stale): an attempt the server cannot see
+Stalled(c) == pc[c] = "recv" /\ Class(stp[c]) = "stall"
+\* (the time variables only move in Tick / Wakeup / LeaseTimeout, when a wait ends and when a receive begins or ends;
+\* written without primed variables of the wrapped action: TLC evaluates ENABLED Next for NoStuck)
+NoTime == UNCHANGED <<age, waited, total>>
+Tick == /\ LeaseTO /\ \E h \in Callers : Stalled(h)
+        /\ age < StallTicks /\ \A w \in Callers : pc[w] = "lease" => waited[w] < 1
+        /\ age' = age + 1
+        /\ waited' = [w \in Callers |-> IF pc[w] = "lease" THEN waited[w] + 1 ELSE waited[w]]
+        /\ total' = [w \in Callers |-> IF pc[w] = "lease" THEN total[w] + 1 ELSE total[w]]
+        /\ UNCHANGED <<pc, ri, meth, pre, bud, unread, foreign, att, cur, fresh, stp, err, idle, lease, cache, conns, atts, fk, steps, script>>
+Wakeup(c) == /\ Dev_LeaseWaitRestarts /\ pc[c] = "lease" /\ waited[c] > 0
+             /\ waited' = [waited EXCEPT ![c] = 0]
+             /\ UNCHANGED <<age, total, pc, ri, meth, pre, bud, unread, foreign, att, cur, fresh, stp, err, idle, lease, cache, conns, atts, fk, steps, script>>
+\* the wait for the lease times out: std::runtime_error thrown by acquireLease BEFORE the pre-send wrap (not NotSent:
+\* a non-idempotent request is not retried, an idempotent one is, within its budget); nothing was put on the wire
+LeaseTimeout(c) == /\ LeaseTO /\ pc[c] = "lease" /\ lease # 0 /\ waited[c] >= 1
+                   /\ Note(c, LeaseTo) /\ Attempt(c, 0, TRUE, FALSE, FALSE, "Other", TRUE, {})
+                   /\ err' = [err EXCEPT ![c] = "Other"] /\ pc' = [pc EXCEPT ![c] = "decide"]
+                   /\ waited' = [waited EXCEPT ![c] = 0] /\ total' = [total EXCEPT ![c] = 0] /\ UNCHANGED age
+                   /\ UNCHANGED <<ri, meth, pre, bud, unread, foreign, att, cur, fresh, stp, idle, lease, cache, conns, script>>
+StartOrder(c) == (Stagger /\ c > 1) => (pc[c - 1] = "recv" \/ (pc[c - 1] = "idle" /\ ri[c - 1] > NReq))
+Start(c) == StartOrder(c) /\ Start_(c) /\ NoTime
+AcquireLease(c) == AcquireLease_(c) /\ waited' = [waited EXCEPT ![c] = 0] /\ total' = [total EXCEPT ![c] = 0] /\ UNCHANGED age
+Reuse(c) == Reuse_(c) /\ NoTime
+EvictIdle(c) == EvictIdle_(c) /\ NoTime
+Miss(c) == Miss_(c) /\ NoTime
+ConnectFails(c) == ConnectFails_(c) /\ NoTime
+ConnectResetEarly(c) == ConnectResetEarly_(c) /\ NoTime
+ConnectOk(c) == ConnectOk_(c) /\ NoTime
+SetSyncMode(c) == SetSyncMode_(c) /\ NoTime
+SendStale(c) == SendStale_(c) /\ NoTime
+PickCached(c) == PickCached_(c) /\ NoTime
+Send(c) == Send_(c) /\ age' = 0 /\ UNCHANGED <<waited, total>>
+RecvFails(c) == ((Stalled(c) /\ LeaseTO) => age = StallTicks) /\ RecvFails_(c) /\ age' = 0 /\ UNCHANGED <<waited, total>>
+RecvOk(c) == RecvOk_(c) /\ age' = 0 /\ UNCHANGED <<waited, total>>
+RetryDecision(c) == RetryDecision_(c) /\ NoTime
+Finish(c) == Finish_(c) /\ NoTime
+
+Step(c) == \/ LeaseTimeout(c) \/ Wakeup(c)
           \/ Start(c) \/ AcquireLease(c) \/ Reuse(c) \/ EvictIdle(c) \/ Miss(c)
           \/ ConnectFails(c) \/ ConnectResetEarly(c) \/ ConnectOk(c) \/ PickCached(c)
           \/ SetSyncMode(c) \/ SendStale(c) \/ Send(c) \/ RecvFails(c) \/ RecvOk(c) \/ RetryDecision(c) \/ Finish(c)
+Next == Tick \/ \E c \in Callers : Step(c)
 Spec == Init /\ [][Next]_vars
 
 \* ------------------------------------------------------------------------------------------------ the property
@@ -267,6 +342,8 @@ OwnResponse == ~foreign
 \* the lease: one exchange at a time
 LeaseExclusive == Cardinality({c \in Callers : pc[c] \in {"cache", "connect", "sync", "send", "recv"}}) <= 1
                   /\ \A c \in Callers : pc[c] \in {"cache", "connect", "sync", "send", "recv"} => lease = c
+\* a configured lease time-out bounds the wait for the lease: no wait lasts longer than leaseAcquireTimeout (one tick)
+LeaseWaitBounded == \A c \in Callers : total[c] <= 1
 \* every attempt ends: nobody waits for ever (a silent peer ends in a receive timeout)
 Terminal == \A c \in Callers : pc[c] = "idle" /\ ri[c] = NReq + 1
 NoStuck == ~Terminal => ENABLED Next
